@@ -255,6 +255,18 @@ struct HStopCallback final : HStopCbBase {
 };
 
 // ---------------------------------------------------------------------------
+// value type for the custom query: copying preserves it, moving leaves a recognisable moved-from state behind, so an
+// adaptor that moves the stored query value out of an lvalue-connected sender is caught on the next connect
+struct QVal {
+  long v = 0;
+  explicit QVal(long x) noexcept : v(x) {}
+  QVal(const QVal&) noexcept = default;
+  QVal(QVal&& o) noexcept : v(o.v) { o.v = -7; }
+  QVal& operator=(const QVal&) noexcept = default;
+  QVal& operator=(QVal&& o) noexcept { v = o.v; o.v = -7; return *this; }
+  operator long() const noexcept { return v; }
+};
+
 // custom receiver query with a "not forwarded" default
 inline constexpr struct verif_tag_fn {
   template <class R>
@@ -395,7 +407,7 @@ struct Leaf {
         auto tok = unifex::get_stop_token(r);
         run.tok_stop_possible = tok.stop_possible();
         run.tok_stopped_at_start = tok.stop_requested();
-        run.q_tag = verif_tag(r);
+        run.q_tag = static_cast<long>(verif_tag(r));
         if constexpr (std::is_invocable_v<unifex::tag_t<unifex::get_scheduler>, const R&>) {
           auto s = unifex::get_scheduler(r);
           if constexpr (std::is_same_v<decltype(s), HSched>) run.q_sched = s.ctx; else run.q_sched = -1;
